@@ -309,7 +309,18 @@ impl Prop for C14 {
         tier.pick(600, 4000)
     }
     fn fixed_cases(_tier: Tier) -> Vec<Case> {
-        let mut v = vec![];
+        // files whose index trees, chromosome tree and zoom indexes each exceed the 8 KiB buffer in front of
+        // the destination (they reach it in writes of their own)
+        let mut big_bw = c01::big_case(700, 2, 1);
+        big_bw.opts.zoom = ZoomSpec::Manual(vec![4]);
+        big_bw.opts.threads = 2;
+        let mut many_chroms = c01::big_case(900, 4, 450);
+        many_chroms.opts.zoom = ZoomSpec::Manual(vec![]);
+        many_chroms.opts.multipass = true;
+        let mut big_bb = c02::big_case(700, 2);
+        big_bb.opts.zoom = ZoomSpec::Manual(vec![16]);
+        big_bb.opts.compress = false;
+        let mut v = vec![Case::Bw(big_bw), Case::Bw(many_chroms), Case::Bb(big_bb)];
         if !std::path::Path::new("/dev/full").exists() {
             return v;
         }
